@@ -129,8 +129,57 @@ func c10SpecialFloats(r *rand.Rand, valid []byte) []byte {
 	return b
 }
 
+// c10Confuse: the valid body with its arrays refilled with items of every JSON type (a string first, then an object, a list,
+// numbers, null, a repeated string) and, now and then, a leaf replaced by a value of another type.
+func c10Confuse(r *rand.Rand, valid []byte) []byte {
+	var v any
+	if json.Unmarshal(valid, &v) != nil {
+		return valid
+	}
+	mixed := func() []any {
+		items := []any{"go", map[string]any{"a": 1.0}, []any{1.0}, 1.0, nil, true, "go", map[string]any{"a": 1.0}}
+		k := r.Intn(3)
+		return append([]any{}, items[k:k+2+r.Intn(len(items)-k-1)]...)
+	}
+	var walk func(x any) any
+	walk = func(x any) any {
+		switch t := x.(type) {
+		case []any:
+			if r.Intn(3) != 0 {
+				return mixed()
+			}
+			out := make([]any, len(t))
+			for i, e := range t {
+				out[i] = walk(e)
+			}
+			return out
+		case map[string]any:
+			out := make(map[string]any, len(t))
+			for _, k := range sortedKeys(t) {
+				out[k] = walk(t[k])
+			}
+			return out
+		}
+		switch r.Intn(8) {
+		case 0:
+			return mixed()
+		case 1:
+			return map[string]any{"go": []any{"x", map[string]any{}}}
+		}
+		return x
+	}
+	out := walk(v)
+	if _, isArr := out.([]any); !isArr && r.Intn(4) == 0 {
+		out = mixed()
+	}
+	b, _ := json.Marshal(out)
+	return b
+}
+
 func c10Bodies(r *rand.Rand, valid []byte) []byte {
-	switch r.Intn(26) {
+	switch r.Intn(29) {
+	case 26, 27, 28:
+		return c10Confuse(r, valid)
 	case 24, 25:
 		return c10SpecialFloats(r, valid)
 	case 0, 1, 2, 3:
@@ -454,7 +503,11 @@ func (m *c10Msg) request() *http.Request {
 	}
 	req.Method = m.Method
 	if streamed {
+		// length announced (Content-Length) or not (chunked transfer: -1)
 		req.ContentLength = int64(len(*m.Body))
+		if len(*m.Body)%4 == 1 {
+			req.ContentLength = -1
+		}
 	}
 	for k, vs := range m.Header {
 		req.Header[k] = append([]string{}, vs...)
